@@ -404,6 +404,10 @@ class Component( ComponentLevel7 ):
               parent._dsl.adjacency[other].remove( x )
           del parent._dsl.adjacency[x]
 
+      # The constants of the removed components are not in the design anymore
+      for y in removed_consts:
+        top._dsl.all_adjacency.pop( y, None )
+
       for x in removed_components:
         del x._dsl.parent_obj
         del x._dsl.elaborate_top
@@ -425,7 +429,7 @@ class Component( ComponentLevel7 ):
       # enough. Thus I'm just removing them right now.
       new_connect_order = []
       for (x, y) in parent._dsl.connect_order:
-        if x not in removed_signals and y not in removed_signals: # TODO method port
+        if x not in removed_connectables and y not in removed_connectables:
           new_connect_order.append( (x, y) )
 
       parent._dsl.connect_order = new_connect_order
